@@ -182,3 +182,30 @@ for _pid, _add in ROUND8.items():
     if _pid in CHECKS:
         _t, _text, _note, _ref = CHECKS[_pid]
         CHECKS[_pid] = (_t, _text + " " + _add, _note, _ref)
+
+
+# ---- additions of session 4 (seeded rounds 9 and 10) ----
+SIM_COMMON = ("Scenario layer (all simulation-level checks): a second site with the same station / session / constraint names and other equipment simulated in the same process (before the scenario, or from inside one of its scheduler calls); free-text station ids (digits only, case twins, blanks, the empty string); the interface inspected before run(); sessions added to the event queue while the run is in progress; runs stretched to hundreds / thousands of periods and a space with 12-25 stays in sequence; single-angle sites with a differential (mixed-sign) row; every run under a step bound (non-termination is a violation).")
+ROUND910 = {
+    "C01": SIM_COMMON + " Queue built from 3-5 single adds followed by a larger batch.",
+    "C02": SIM_COMMON + " Family 'pilots a hair below zero' (-9e-4 .. -1e-6 A, accepted by every EVSE class) with ideal batteries.",
+    "C03": SIM_COMMON + " One battery / EV / EVSE through up to 1 200 consecutive calls (pilot pattern repeated).",
+    "C04": SIM_COMMON + " After a JSON checkpoint the restored stations must draw exactly what they drew in the uninterrupted run (applied, not only recorded pilots); malformed schedules whose odd row has length 1.",
+    "C05": SIM_COMMON + " In a quarter of the cases the scheduler object has served a complete earlier run and is attached with update_scheduler().",
+    "C06": "Single-angle sites (all stations on one angle, first row differential); long horizons whose only overload is the last period.",
+    "C07": SIM_COMMON + " Mid-run limit changes are preceded by interface queries in the same period; a car drawing less than the lowest level of its finite-rate station (estimator bound below that level, uninterrupted charging).",
+    "C08": "In uncontrolled_sim and sorted_sim the same algorithm object afterwards serves a second site with the same station ids and other equipment and is judged there; a limit changed mid-run after a look through the interface; a third of the single-invocation cases have (nearly) everybody past the estimated departure.",
+    "C09": SIM_COMMON,
+    "C10": "Sub-check far_shift: shifts of 100 003 / 131 077 / 250 001 periods; 'squeeze' family (full car park behind one feeder that cannot serve everybody's minimum, estimates right after arrival).",
+    "C11": "Far-out adjacent time stamps (1e6 +- 1, 123456/7, 2^31, 2^31+1) as event times and query periods.",
+    "C12": "A colliding add under warnings-as-errors is a rule of its own.",
+    "C14": "T = n x T/n for n up to 50; one battery through up to 400 calls.",
+    "C15": "Capacity fit for stays of up to 40 000 periods.",
+    "C16": "Transformer ratings of 0 kW (also 0.0 / numpy zero) and below one car; a constraint re-entered (same expression, same or derated limit) through update_constraint after a first query; schedules creeping upwards by 8e-6 per period over 12 500 / 20 000 periods.",
+    "C18": SIM_COMMON + " Re-analysis after one constraint of the simulation's network was given another limit or removed; sweeps of 6-10 simulations built, analysed and discarded; a car on site that is no session of the simulation.",
+    "C19": "Station ids incl. the empty string; cars on site before the run (network.plugin by the caller, only departures queued); free spaces looked up before all stations are registered.",
+}
+for _pid, _add in ROUND910.items():
+    if _pid in CHECKS:
+        _t, _text, _note, _ref = CHECKS[_pid]
+        CHECKS[_pid] = (_t, _text + " " + _add, _note, _ref)
